@@ -182,18 +182,30 @@ namespace pika::concurrency::detail {
             pika::concurrency::detail::get_cache_line_size() - sizeof(anchor);    //-V103
         char padding[padding_size];
 
-        node* alloc_node(node* lptr, node* rptr, T const& v, tag_t ltag = 0, tag_t rtag = 0)
+        // Nodes are recycled through pool_. A thread delayed inside stabilize_left/stabilize_right
+        // may still hold a (pointer, tag) pair it read from a link of this node in the node's
+        // previous life; its compare-exchange must fail. The link tags therefore keep counting
+        // across reuse instead of restarting at 0 (the tag found in never used memory is
+        // arbitrary, which is fine).
+        static tag_t next_tag(typename node::atomic_pointer const& link)
+        {
+            return link.load(std::memory_order_relaxed).get_tag() + 1;
+        }
+
+        node* alloc_node(node* lptr, node* rptr, T const& v)
         {
             node* chunk = pool_.allocate();
             if (chunk == nullptr) { throw std::bad_alloc(); }
+            tag_t const ltag = next_tag(chunk->left), rtag = next_tag(chunk->right);
             new (chunk) node(lptr, rptr, v, ltag, rtag);
             return chunk;
         }
 
-        node* alloc_node(node* lptr, node* rptr, T&& v, tag_t ltag = 0, tag_t rtag = 0)
+        node* alloc_node(node* lptr, node* rptr, T&& v)
         {
             node* chunk = pool_.allocate();
             if (chunk == nullptr) { throw std::bad_alloc(); }
+            tag_t const ltag = next_tag(chunk->left), rtag = next_tag(chunk->right);
             new (chunk) node(lptr, rptr, std::move(v), ltag, rtag);
             return chunk;
         }
@@ -341,7 +353,7 @@ namespace pika::concurrency::detail {
                 {
                     // Make the right pointer on our new node refer to the current
                     // leftmost node.
-                    n->right.store(node_pointer(lrs.get_left_ptr()));
+                    n->right.store(node_pointer(lrs.get_left_ptr(), next_tag(n->right)));
 
                     // Now we want to make the anchor point to our new node as the
                     // leftmost node. We change the state to lpush as the deque
@@ -396,7 +408,7 @@ namespace pika::concurrency::detail {
                 {
                     // Make the left pointer on our new node refer to the current
                     // rightmost node.
-                    n->left.store(node_pointer(lrs.get_right_ptr()));
+                    n->left.store(node_pointer(lrs.get_right_ptr(), next_tag(n->left)));
 
                     // Now we want to make the anchor point to our new node as the
                     // leftmost node. We change the state to lpush as the deque
